@@ -94,13 +94,29 @@ def main():
         tr = model.vmap(in_axes=(0, 0)).simulate(t1, t2)
         lw = jnp.log(jnp.asarray(ws, dtype=jnp.float32)) + rng.choice([0.0, 1.5, -4.0])
         est = jnp.float32(rng.choice([0.0, -2.25, 3.5]))
+        # stored diagnostic weights are deliberately stale (as after rejuvenate / a previous resample)
+        stale = jnp.log(jnp.asarray(list(reversed(gen_weights(rng, n)[1])), dtype=jnp.float32))
         pc = smc.ParticleCollection(traces=tr, log_weights=lw,
-                                    diagnostic_weights=jnp.zeros(n), n_samples=const(n),
+                                    diagnostic_weights=stale, n_samples=const(n),
                                     log_marginal_estimate=est)
         method = rng.choice(["systematic", "categorical"])
         c = {"kind": "res", "ws": ws, "method": method, "n": n, "wkind": kind}
+        b = rng.choice([64, 128, 97])
+        a = rng.randint(1, b - 1)
+        T = sum(ws)
+        cs_, acc_ = [], 0
+        for w_ in ws:
+            acc_ += w_
+            cs_.append(acc_)
+        if method == "systematic":
+            margin = min(abs((j * b + a) * T - cc * n * b) for j in range(n) for cc in cs_) / (n * b * T)
+            if margin < 2e-6:
+                continue
+            smc.uniform = types.SimpleNamespace(sample=lambda lo, hi, a=a, b=b: jnp.float32(a / b))
+            c["a"], c["b"] = a, b
         try:
             out_pc = seed(lambda: smc.resample(pc, method=method))(jax.random.key(rng.randrange(10 ** 6)))
+            smc.uniform = orig_uniform
             fin = [np.asarray(l).reshape(n, -1)[:, 0] for l in jtu.tree_leaves(tr) if np.ndim(l) >= 1]
             fout = [np.asarray(l).reshape(n, -1)[:, 0] for l in jtu.tree_leaves(out_pc.traces) if np.ndim(l) >= 1]
             c["fin"] = [[int(v) for v in f] for f in fin]
@@ -115,6 +131,8 @@ def main():
                                 and np.all(np.isneginf(got[~fin_mask])) and int(out_pc.n_samples.value) == n)
         except Exception as e:  # noqa: BLE001
             c["err"] = type(e).__name__ + ": " + str(e)[:200]
+        finally:
+            smc.uniform = orig_uniform
         cases.append(c)
     json.dump(cases, open(out, "w"))
 
